@@ -115,7 +115,7 @@ func c18GenRecord(t *rapid.T) c18Rec {
 	case 1:
 		return c18Rec{controlTypeCredit, Credit{StreamID: c18U64.Draw(t, "sid"), Credits: c18U32.Draw(t, "cr")}}
 	case 2:
-		n := rapid.OneOf(rapid.SampledFrom([]int{0, 1, 2, 1000}), rapid.IntRange(0, 1000), rapid.IntRange(0, 5)).Draw(t, "nbatch")
+		n := rapid.OneOf(rapid.SampledFrom([]int{0, 1, 2, 1000, 1023, 1024, 1025, 2049, 3000}), rapid.IntRange(0, 3000), rapid.IntRange(0, 5)).Draw(t, "nbatch")
 		var entries []Credit
 		seed := verifkit.XorShift(rapid.Uint64().Draw(t, "batch_seed"))
 		for i := 0; i < n; i++ {
